@@ -47,6 +47,11 @@ def valueForbidden (name : String) (v : PVal) : Bool :=
     || Gen.propEnumRules.any (fun (names, vals) => names.contains name && !vals.contains n)
   | _ => false
 
+/-- "does not apply to packet type": the message is built with `PacketTypes.Names[self.packetType]`,
+a 16-entry tuple, so for the pseudo type WILLMESSAGE (99) the formatting itself raises IndexError -/
+def notAllowedExc {α : Type} (ptype : Nat) : Except Exc α :=
+  if ptype < 16 then .error .mqttException else .error .indexError
+
 /-- `setattr(props, name, value)` with a scalar value -/
 def setAttr (p : Props) (name : String) (v : PVal) : Except Exc Props :=
   match idOfName name with
@@ -55,7 +60,7 @@ def setAttr (p : Props) (name : String) (v : PVal) : Except Exc Props :=
     match row i with
     | none => .error .keyError
     | some (_, pkts) =>
-      if !pkts.contains p.ptype then .error .mqttException
+      if !pkts.contains p.ptype then notAllowedExc p.ptype
       else if valueForbidden name v then .error .mqttException
       else if allowsMultiple i then
         .ok (putAttr p i ((getAttr p i).getD [] ++ [v]))
@@ -70,7 +75,7 @@ def setAttrList (p : Props) (name : String) (vs : List PVal) : Except Exc Props 
     match row i with
     | none => .error .keyError
     | some (_, pkts) =>
-      if !pkts.contains p.ptype then .error .mqttException
+      if !pkts.contains p.ptype then notAllowedExc p.ptype
       else if Gen.propRulesOnLists && vs.any (valueForbidden name) then .error .mqttException
       else if allowsMultiple i then .ok (putAttr p i ((getAttr p i).getD [] ++ vs))
       else .error .other   -- a list stored in a non-repeatable property: outside the model
